@@ -35,13 +35,13 @@ func (s *Server) WorkspaceSymbol(ctx context.Context, params *protocol.Workspace
 			continue
 		}
 
-		symbols = append(symbols, extractSymbols(journal, uri, query)...)
+		symbols = append(symbols, extractSymbols(journal, newColumnMapper(contents[uri]), uri, query)...)
 	}
 
 	return symbols, nil
 }
 
-func extractSymbols(journal *ast.Journal, uri protocol.DocumentURI, query string) []protocol.SymbolInformation {
+func extractSymbols(journal *ast.Journal, mapper *columnMapper, uri protocol.DocumentURI, query string) []protocol.SymbolInformation {
 	var symbols []protocol.SymbolInformation
 
 	for _, dir := range journal.Directives {
@@ -53,7 +53,7 @@ func extractSymbols(journal *ast.Journal, uri protocol.DocumentURI, query string
 					Kind: protocol.SymbolKindClass,
 					Location: protocol.Location{
 						URI:   uri,
-						Range: *astRangeToProtocol(accountNameRange(&d.Account)),
+						Range: *mapper.toProtocol(accountNameRange(&d.Account)),
 					},
 				})
 			}
@@ -64,7 +64,7 @@ func extractSymbols(journal *ast.Journal, uri protocol.DocumentURI, query string
 					Kind: protocol.SymbolKindEnum,
 					Location: protocol.Location{
 						URI:   uri,
-						Range: *astRangeToProtocol(directiveCommodityRange(&d.Commodity)),
+						Range: *mapper.toProtocol(directiveCommodityRange(&d.Commodity)),
 					},
 				})
 			}
@@ -83,7 +83,7 @@ func extractSymbols(journal *ast.Journal, uri protocol.DocumentURI, query string
 					Kind: protocol.SymbolKindFunction,
 					Location: protocol.Location{
 						URI:   uri,
-						Range: *astRangeToProtocol(estimatePayeeRange(tx, payee)),
+						Range: *mapper.toProtocol(estimatePayeeRange(tx, payee)),
 					},
 				})
 			}
